@@ -2,7 +2,7 @@
 
 Also hosts the forced-schedule enumeration shared with C10 (every stripe height of 2/3-operator chains through the real
 pipeline with the cost comparison bypassed)."""
-from .. import netrun, outfile, sweep
+from .. import forced, netrun, outfile, sweep
 from ..npu import tagmachine as TM
 
 
@@ -120,4 +120,4 @@ def run(ctx):
              "states = stream positions, transitions = operations executed",
         assumptions=["identity of a byte = (tensor equivalence class, logical element under the operation's view) for brick-format and rolling-buffer tensors, (tensor, byte offset) for linear tensors, (constants, flash offset -> compared by content) for weights/scales/LUTs",
                      "operations execute atomically in program order (asynchrony is C04's subject); names/boxes of what each access must see come from the compiler's high-level command list (side band), addresses from the emitted registers"],
-        nontrivial_stat="reads_checked", model_checking=True, key_fn=_key)
+        extra_cases=forced.forced_cases(ctx.tier), nontrivial_stat="reads_checked", model_checking=True, key_fn=_key)
